@@ -32,12 +32,17 @@ def _networks(ns):
             ("A<->B+diff", [{"eq": [[["A", 1]], [["B", 1]]], "kf": 3.0, "kr": 5.0}], [2.0, 3.0]),
             ("2A->B+diff", [{"eq": [[["A", 2]], [["B", 1]]], "kf": 0.5, "kr": 0.25}], [1.0, 0.0]),
             ("diffusion", [], [2.0, 3.0]),
+            ("A+B->2B,B->A", [{"eq": [[["A", 1], ["B", 1]], [["B", 2]]], "kf": 0.5, "kr": 0.0},
+                              {"eq": [[["B", 1]], [["A", 1]]], "kf": 1.5, "kr": 0.0}], [0.5, 1.0]),
         ]
     return [
         ("A+B<->C+diff", [{"eq": [[["A", 1], ["B", 1]], [["C", 1]]], "kf": 0.5, "kr": 2.0}], [2.0, 3.0, 5.0]),
         ("A->B,B->C", [{"eq": [[["A", 1]], [["B", 1]]], "kf": 2.0, "kr": 0.0},
                        {"eq": [[["B", 1]], [["C", 1]]], "kf": 3.0, "kr": 1.0}], [0.0, 1.0, 2.0]),
         ("diffusion", [], [2.0, 3.0, 5.0]),
+        # a species on both sides (catalyst B) whose amount changes through a second reaction
+        ("A+B->C+B,B->A", [{"eq": [[["A", 1], ["B", 1]], [["C", 1], ["B", 1]]], "kf": 0.5, "kr": 0.0},
+                           {"eq": [[["B", 1]], [["A", 1]]], "kf": 1.5, "kr": 0.25}], [0.0, 1.0, 2.0]),
     ]
 
 
@@ -273,7 +278,7 @@ def run(ctx):
             continue
         core.merge(ctx, r)
         done += job[1] - job[0]
-    ctx.subspace("all chemostat subsets of (species,cells) in {(2,1),(3,1),(2,2),(2,3),(3,2)} (4+8+16+64+64 maps; thorough adds (2,4): 256 maps on a 2x2 grid / 4-node graph) x 3 networks x "
+    ctx.subspace("all chemostat subsets of (species,cells) in {(2,1),(3,1),(2,2),(2,3),(3,2)} (4+8+16+64+64 maps; thorough adds (2,4): 256 maps on a 2x2 grid / 4-node graph) x 4 networks (incl. a catalytic one) x "
                  "{grid,graph}; per system: kinetics (both modes), make_dxdtf (single cell), apply_reaction at every position "
                  "x n in {1,-1,2}, Euler (5 steps), tau-leap and Gillespie x seed window",
                  nplain, min(done, nplain), exhaustive=(done == len(_CASES)))
